@@ -41,6 +41,8 @@ pub enum Kind {
     Alloc { bytes: u64 },
     Exit { code: i32 },
     Large { n: u64 },
+    /// answers normally, then the child exits by itself `ms` later: it dies while idle, between requests
+    ExitLater { ms: u64 },
 }
 
 #[derive(Serialize, Deserialize, Clone, Debug, PartialEq, Eq, Hash)]
@@ -186,6 +188,13 @@ pub fn expect(req: &Req, sc: &Scenario) -> Result<Expect, String> {
             }
         }
         Kind::Exit { .. } => Expect::Crashed,
+        Kind::ExitLater { ms } => Expect::Ok {
+            value: *ms,
+            resp_len: 0,
+            resp_sum: empty,
+        },
+        // a payload far beyond the child's memory limit: the child cannot even read the request
+        Kind::Large { n } if *n >= sc.limit_bytes.saturating_mul(2) && *n <= (1 << 29) => Expect::Crashed,
         Kind::Large { n } => {
             if *n * 12 > sc.limit_bytes {
                 return Err(format!("Large {} is too close to the {} byte limit", n, sc.limit_bytes));
@@ -208,6 +217,8 @@ pub fn class_of(req: &Req, sc: &Scenario) -> &'static str {
     match (&req.kind, expect(req, sc)) {
         (Kind::Panic { .. }, _) => "panic",
         (Kind::Exit { .. }, _) => "exit",
+        (Kind::ExitLater { .. }, _) => "exit-while-idle",
+        (Kind::Large { .. }, Ok(Expect::Crashed)) => "overlarge",
         (Kind::Large { .. }, _) => "large",
         (Kind::Sleep { .. }, Ok(Expect::Timeout)) => "overrun",
         (Kind::Alloc { .. }, Ok(Expect::Crashed)) => "overalloc",
@@ -216,7 +227,7 @@ pub fn class_of(req: &Req, sc: &Scenario) -> &'static str {
 }
 
 fn is_fault(class: &str) -> bool {
-    matches!(class, "panic" | "overrun" | "overalloc" | "exit")
+    matches!(class, "panic" | "overrun" | "overalloc" | "exit" | "overlarge" | "exit-while-idle")
 }
 
 /// cost of a request for the wall-clock budget of the driver (ms)
@@ -253,6 +264,8 @@ pub struct Judged {
     pub lost_then_recovered: u64,
     /// F-20, shape 2: the parent task ended; every later request lost
     pub sandbox_dead: bool,
+    /// requests answered Err(Crashed) because the child had exited while idle
+    pub lost_to_idle_death: u64,
 }
 
 fn short(s: &str) -> String {
@@ -277,6 +290,7 @@ fn describe(sc: &Scenario) -> String {
                 Kind::Alloc { bytes } => format!("Alloc({})", bytes),
                 Kind::Exit { code } => format!("Exit({})", code),
                 Kind::Large { n } => format!("Large({})", n),
+                Kind::ExitLater { ms } => format!("ExitLater({}ms)", ms),
             };
             if s.gap_ms > 0 {
                 format!("+{}ms {}", s.gap_ms, k)
@@ -369,6 +383,7 @@ pub fn judge(sc: &Scenario, obs: &[Obs], complete: bool, known: &BTreeSet<String
         served_after_kill: 0,
         lost_then_recovered: 0,
         sandbox_dead: false,
+        lost_to_idle_death: 0,
     };
     let text = describe(sc);
     // F-20 bookkeeping: the previous request was answered Err(Panic) (so its child has exited)
@@ -378,6 +393,9 @@ pub fn judge(sc: &Scenario, obs: &[Obs], complete: bool, known: &BTreeSet<String
     let mut last_inc: Option<(u32, u64)> = None;
     let mut must_restart: Option<usize> = None;
     let mut fault_seen = false;
+    // the child that answered an ExitLater request is going to exit by itself: until a request is
+    // seen to be lost to that (Err(Crashed)) or another child answers, the next request may find it gone
+    let mut doomed: Option<(u32, u64)> = None;
     for (i, step) in sc.steps.iter().enumerate() {
         let o = match obs.get(i) {
             Some(o) => o,
@@ -407,6 +425,32 @@ pub fn judge(sc: &Scenario, obs: &[Obs], complete: bool, known: &BTreeSet<String
         };
         let after_panic = prev_panicked;
         prev_panicked = o.outcome == "panic";
+        if doomed.is_some() && o.outcome == "crashed" {
+            // its own result or an error naming what happened to it: the child was gone
+            doomed = None;
+            fault_seen = true;
+            must_restart = Some(i);
+            j.lost_to_idle_death += 1;
+            continue;
+        }
+        if doomed.is_some() && o.outcome == "ok" && doomed != Some((o.child_pid.unwrap_or(0), o.born_ns.unwrap_or(0))) {
+            doomed = None;
+        }
+        if doomed.is_some() && o.outcome != "ok" {
+            // a fault of this request's own making ends the doomed child as well
+            doomed = None;
+        }
+        if let (Kind::ExitLater { .. }, "crashed") = (&step.req.kind, o.outcome.as_str()) {
+            // the exit overtook the reply (both are a few microseconds of work): the child died
+            // during this request, and that is what it was told
+            fault_seen = true;
+            must_restart = Some(i);
+            continue;
+        }
+        if let (Kind::ExitLater { .. }, "ok") = (&step.req.kind, o.outcome.as_str()) {
+            doomed = Some((o.child_pid.unwrap_or(0), o.born_ns.unwrap_or(0)));
+            fault_seen = true;
+        }
         match mismatch(&exp, &step.req, o, sc) {
             None => {
                 if o.outcome == "ok" {
@@ -512,6 +556,7 @@ impl Req {
             Kind::Alloc { .. } => "Alloc",
             Kind::Exit { .. } => "Exit",
             Kind::Large { .. } => "Large",
+            Kind::ExitLater { .. } => "ExitLater",
         }
     }
 }
@@ -917,6 +962,8 @@ fn kind_strategy() -> impl Strategy<Value = Kind> {
         2 => (3 * TIMEOUT_MS..=3 * TIMEOUT_MS + 500).prop_map(|ms| Kind::Sleep { ms }),
         2 => prop_oneof![Just(4 * LIMIT_BYTES), 4 * LIMIT_BYTES..=(1u64 << 34)].prop_map(|bytes| Kind::Alloc { bytes }),
         2 => prop::sample::select(vec![3, 0, 1, 101, 255]).prop_map(|code| Kind::Exit { code }),
+        2 => prop::sample::select(vec![5u64, 10, 40, 120]).prop_map(|ms| Kind::ExitLater { ms }),
+        1 => prop::sample::select(vec![2 * LIMIT_BYTES, 4 * LIMIT_BYTES]).prop_map(|n| Kind::Large { n }),
     ]
 }
 
@@ -989,6 +1036,60 @@ pub fn run(cx: &Cx) -> Report {
     rep.stats.note("exhaustive_up_to_length", json!(full_len));
     rep.exhaustive = true;
     let inconcl_exh = rep.stats.classes.get("scenarios_inconclusive").copied().unwrap_or(0);
+
+    // phase 1b: the two ways a child can be gone before a request reaches it - it exited while idle
+    // (ExitLater, with the next request sent before and after the exit), or it cannot take the
+    // request in (a payload of twice its memory limit) - in every position of short sequences
+    {
+        let mut items: Vec<Scenario> = vec![];
+        let kinds: [(u8, u64); 5] = [(0, 0), (1, 5), (1, 40), (2, 0), (3, 0)];
+        let mut seqs: Vec<Vec<(u8, u64)>> = vec![vec![]];
+        for len in 1..=3 {
+            let mut next = vec![];
+            for p in seqs.iter().filter(|p| p.len() == len - 1) {
+                for k in kinds {
+                    let mut q = p.clone();
+                    q.push(k);
+                    next.push(q);
+                }
+            }
+            seqs.extend(next);
+        }
+        for q in seqs.into_iter().filter(|q| q.len() >= 2 && q[..q.len() - 1].iter().any(|k| k.0 == 1 || k.0 == 2)) {
+            for gap in [0u64, 150] {
+                items.push(Scenario {
+                    limit_bytes: LIMIT_BYTES,
+                    timeout_ms: TIMEOUT_MS,
+                    steps: q
+                        .iter()
+                        .enumerate()
+                        .map(|(i, (k, ms))| {
+                            let id = 9001 + 17 * i as u64;
+                            let kind = match k {
+                                0 => Kind::Add { a: 30 + i as i64, b: 3 },
+                                1 => Kind::ExitLater { ms: *ms },
+                                2 => Kind::Large { n: 2 * LIMIT_BYTES },
+                                _ => Kind::Panic { msg: format!("boom-{}", id) },
+                            };
+                            Step { req: Req { id, kind }, gap_ms: if i == 0 { 0 } else { gap } }
+                        })
+                        .collect(),
+                });
+            }
+        }
+        rep.stats.note("gone_before_request_sequences", json!(items.len()));
+        let k1 = known.clone();
+        let sbx1 = sbx.clone();
+        rep.absorb(par_sweep(
+            cx,
+            "gone-before-request",
+            items,
+            move || mk_env(k1.clone(), sbx1.clone()),
+            |env, sc, st| check_scenario(env, sc, st),
+            |sc| serde_json::to_value(sc).unwrap(),
+        ));
+        rep.mark(cx, "gone-before-request");
+    }
 
     // phase 2: random sequences with gaps
     let cases = cx.tier.pick(96u64, 3000);
